@@ -3,9 +3,8 @@
       [y c = R32 (R64 (R64 (c - l) / w))]      (c between l and h)
     lies in [0,1], is monotone in [c], is 0 at [l] and 1 at [h], and is within
     2^-24 of [(c - l) / (h - l)]. *)
-From Coq Require Import ZArith Reals Lra Lia.
+From Coq Require Import ZArith Reals Lra Lia Psatz.
 From Flocq Require Import Core Plus_error Relative.
-From Interval Require Import Tactic.
 From E57 Require Import Base.Prelude Base.Floats Proofs.FltLemmas.
 Local Open Scope R_scope.
 
@@ -84,6 +83,27 @@ Proof.
   assert (Hm : (mag radix2 q <= 0)%Z).
   { apply mag_le_bpow; [lra|]. rewrite Rabs_pos_eq by lra. simpl. exact H1. }
   unfold FLT_exp. lia.
+Qed.
+
+(** Three relative errors of size [u] and one absolute error combine to at most [16 u]. *)
+Lemma err_combine : forall u t e1 e2 e3 eta, 0 < u <= /4 -> 0 <= t <= 1 ->
+  - u <= e1 <= u -> - u <= e2 <= u -> - u <= e3 <= u -> - (8 * u) <= eta <= 8 * u ->
+  Rabs (t * ((1 + e1) * (1 + e3) / (1 + e2) - 1) + eta) <= 16 * u.
+Proof.
+  intros u t e1 e2 e3 eta Hu Ht H1 H2 H3 H4.
+  assert (P : 0 < 1 + e2) by lra.
+  set (n := e1 + e3 + e1 * e3 - e2).
+  assert (E : (1 + e1) * (1 + e3) / (1 + e2) - 1 = n / (1 + e2)).
+  { unfold n. field. lra. }
+  rewrite E.
+  assert (N : - (4 * u) <= n <= 4 * u).
+  { unfold n. assert (- (u * u) <= e1 * e3 <= u * u) by nra. nra. }
+  assert (X : - (8 * u) <= n / (1 + e2) <= 8 * u).
+  { split.
+    - apply Rmult_le_reg_r with (1 + e2); [exact P|]. unfold Rdiv. rewrite Rmult_assoc, Rinv_l by lra. nra.
+    - apply Rmult_le_reg_r with (1 + e2); [exact P|]. unfold Rdiv. rewrite Rmult_assoc, Rinv_l by lra. nra. }
+  set (x := n / (1 + e2)) in *.
+  apply Rabs_le. split; nra.
 Qed.
 
 Lemma bpow_m52 : bpow radix2 (-52) = / 4503599627370496.
@@ -185,7 +205,9 @@ Proof.
   { rewrite Eq. replace (t * ((1 + e1) * (1 + e3) / (1 + e2)) + eta - t)
       with (t * ((1 + e1) * (1 + e3) / (1 + e2) - 1) + eta) by ring.
     apply Rabs_le_inv in B1. apply Rabs_le_inv in B2. apply Rabs_le_inv in B3. apply Rabs_le_inv in B4.
-    interval with (i_prec 120). }
+    eapply Rle_trans.
+    - apply (err_combine (/ 9007199254740992)); try assumption; try lra.
+    - lra. }
   unfold coreR. fold w. fold q. fold t.
   replace (R32 q - t) with ((R32 q - q) + (q - t)) by ring.
   eapply Rle_trans. apply Rabs_triang.
